@@ -20,7 +20,7 @@ ASSUMPTIONS = [
     "depot is node 0 and has no self-arc; time grid without duplicate values",
     "the complete-grid half (equality with the VRPTW optimum without capacity) is exercised in C08",
 ]
-PARTIAL = []
+PARTIAL = ["complete-grid half (equality with the VRPTW optimum without capacity) is exercised in C08"]
 BUDGET_S = {"quick": 100, "thorough": 1200}
 
 
